@@ -1,5 +1,6 @@
 import Driver.Common
 import GilVerif.Model.C20
+import Std.Data.HashSet
 open Driver GilVerif.Model.C20
 
 def showPts (ps : List Pt) : String := " ".intercalate (ps.map (fun p => toString p.1 ++ " " ++ toString p.2))
@@ -13,6 +14,37 @@ def dedup (ps : List Pt) : List Pt := ps.foldl (fun acc p => if acc.contains p t
 
 def scanLt (p q : Pt) : Bool := p.2 < q.2 || (p.2 == q.2 && p.1 < q.1)
 def scanSort (ps : List Pt) : List Pt := (ps.toArray.qsort scanLt).toList
+
+/-- The emitted points form a closed ring: as a set they are 8-connected and (when there are at least three) every point
+    has at least two distinct 8-neighbours in the set -- no loose ends, no gaps between the octant arcs.
+    (Hash set + breadth first search: the List version would be quadratic.) -/
+def closedRing (pts : List Pt) : Bool :=
+  let set : Std.HashSet (Int × Int) := pts.foldl (fun s p => s.insert p) {}
+  let n := set.size
+  if n ≤ 1 then true else
+  let nbrs (p : Pt) : List Pt :=
+    [(p.1 - 1, p.2 - 1), (p.1, p.2 - 1), (p.1 + 1, p.2 - 1), (p.1 - 1, p.2), (p.1 + 1, p.2),
+     (p.1 - 1, p.2 + 1), (p.1, p.2 + 1), (p.1 + 1, p.2 + 1)].filter (fun q => set.contains q)
+  let degOk := n < 3 || set.fold (fun ok p => ok && decide ((nbrs p).length ≥ 2)) true
+  -- breadth first search from the first point, at most n rounds
+  match pts with
+  | [] => true
+  | p0 :: _ =>
+    let rec bfs (fuel : Nat) (front : List Pt) (seen : Std.HashSet (Int × Int)) : Std.HashSet (Int × Int) :=
+      match fuel with
+      | 0 => seen
+      | f + 1 =>
+        if front.isEmpty then seen else
+        let (front', seen') := front.foldl (fun (acc : List Pt × Std.HashSet (Int × Int)) p =>
+          (nbrs p).foldl (fun (a : List Pt × Std.HashSet (Int × Int)) q =>
+            if a.2.contains q then a else (q :: a.1, a.2.insert q)) acc) ([], seen)
+        bfs f front' seen'
+    degOk && (bfs (n + 1) [p0] (({} : Std.HashSet (Int × Int)).insert p0)).size == n
+
+/-- `specSym8` computed with a hash set (same predicate: every point's 8 reflections about the centre are emitted) -/
+def sym8Fast (c : Pt) (pts : List Pt) : Bool :=
+  let set : Std.HashSet (Int × Int) := pts.foldl (fun s p => s.insert p) {}
+  pts.all (fun p => (reflections c p).all (fun q => set.contains q))
 
 def PADc : Int := 3
 
@@ -116,9 +148,10 @@ def judge (op obs : String) : String :=
         match pairs rest with
         | some pts =>
           if n ≠ pc ∨ (pts.length : Int) ≠ n ∨ pc % 8 ≠ 0 ∨ pc < 8 then fail "count"
-          else if !specSym8 (cx, cy) pts then fail "symmetric"
+          else if !sym8Fast (cx, cy) pts then fail "symmetric"
           else if !specCircleBBox (cx, cy) r pts then fail "bbox"
           else if !specCircleNear (cx, cy) r pts then fail "within-one-pixel"
+          else if !closedRing pts then fail "closed"
           else "ok"
         | none => bad
       | _, _ => bad
